@@ -221,4 +221,25 @@ NameOK(name, contents) ==
   /\ contents[1] % 8 = SpareBits(Len(name))
   /\ UnpackExact(Len(contents) - 1, contents[1] % 8)
   /\ Unpack7(Tail(contents), contents[1] % 8) = name
+
+\* Characters whose ASCII code is also their code in the GSM 7-bit default alphabet: for these "unpacking returns the
+\* name" has one reading.  The converters take the octets of the name as septets, so every other code 0..127 is a
+\* character of the alphabet too (code 0 is COMMERCIAL AT); for those the verdict allows either reading where the ASCII
+\* character has a code of its own in the basic table, and states no value where it has none - but a character is a
+\* septet under every reading, so the COUNT of septets, the spare bits and every other character are required as always.
+AsciiGsmSame == {10, 13} \cup (32..35) \cup (37..63) \cup (65..90) \cup (97..122)
+AsciiToGsmOther == [c \in {36, 64, 95} |-> CASE c = 36 -> 2 [] c = 64 -> 0 [] c = 95 -> 17]
+NoStatedValue == (0..9) \cup {11, 12} \cup (14..31) \cup {127}
+SeptetAllowed(c, u) ==
+  IF c \in AsciiGsmSame THEN u = c
+  ELSE IF c \in DOMAIN AsciiToGsmOther THEN u \in {c, AsciiToGsmOther[c]}
+  ELSE IF c \in NoStatedValue THEN u \in Septets
+  ELSE u = c
+NameOKAny(name, contents) ==
+  /\ Len(contents) >= 1
+  /\ (contents[1] \div 16) % 8 = 0
+  /\ contents[1] % 8 = SpareBits(Len(name))
+  /\ UnpackExact(Len(contents) - 1, contents[1] % 8)
+  /\ LET u == Unpack7(Tail(contents), contents[1] % 8)
+     IN Len(u) = Len(name) /\ \A i \in 1..Len(name) : SeptetAllowed(name[i], u[i])
 =============================================================================
